@@ -261,7 +261,18 @@ func runC12(p *core.Prog, r *core.Result) {
 		okShape := false
 		if ok && core.IsCallTo(call, "path/filepath", "Join") {
 			if s, ok := call.Call.Args[0].(*ssa.Slice); ok {
-				if elems, ok := tupleElems(s); ok && len(elems) == 3 {
+				elems, ok := tupleElems(s)
+				// filepath.Join(filepath.Join(work, kinds), file): flatten the inner join
+				if ok && len(elems) == 2 {
+					if inner, isCall := elems[0].(*ssa.Call); isCall && core.IsCallTo(inner, "path/filepath", "Join") {
+						if is, ok2 := inner.Call.Args[0].(*ssa.Slice); ok2 {
+							if ie, ok3 := tupleElems(is); ok3 && len(ie) == 2 {
+								elems = []ssa.Value{ie[0], ie[1], elems[1]}
+							}
+						}
+					}
+				}
+				if ok && len(elems) == 3 {
 					first := core.LoadOfField(elems[0], pkgRoot, "Project", "work")
 					lastCall, isCall := elems[2].(*ssa.Call)
 					last := isCall && core.IsCallTo(lastCall, "net/url", "PathEscape")
@@ -405,21 +416,62 @@ func runC14(p *core.Prog, r *core.Result) {
 		}
 	}
 	markHost := gc
-	for _, host := range hosts {
-		for _, a := range host.AnonFuncs {
-			hasUpdate, hasRemove := false, false
-			core.Instrs(a, func(in ssa.Instruction) {
-				if _, ok := in.(*ssa.MapUpdate); ok {
-					hasUpdate = true
+	// removes: f deletes a path - os.RemoveAll / os.Remove directly, or through a helper of the package that hands
+	// one of its parameters to them
+	removalHelper := func(h *ssa.Function) int {
+		if h == nil || h.Blocks == nil || h.Pkg != gc.Pkg {
+			return -1
+		}
+		idx := -1
+		for _, c := range core.Calls(h) {
+			if core.IsCallTo(c, "os", "RemoveAll") || core.IsCallTo(c, "os", "Remove") {
+				if prm, ok := c.Common().Args[0].(*ssa.Parameter); ok {
+					idx = paramIndex(h, prm)
 				}
-				if c, ok := in.(ssa.CallInstruction); ok && (core.IsCallTo(c, "os", "RemoveAll") || core.IsCallTo(c, "os", "Remove")) {
+			}
+		}
+		return idx
+	}
+	classify := func(a *ssa.Function) (hasUpdate, hasRemove bool) {
+		core.Instrs(a, func(in ssa.Instruction) {
+			if _, ok := in.(*ssa.MapUpdate); ok {
+				hasUpdate = true
+			}
+			if c, ok := in.(ssa.CallInstruction); ok {
+				if core.IsCallTo(c, "os", "RemoveAll") || core.IsCallTo(c, "os", "Remove") || removalHelper(core.Callee(c)) >= 0 {
 					hasRemove = true
 				}
-			})
-			if hasUpdate && !hasRemove && mark == nil {
-				mark, markHost = a, host
 			}
-			if hasRemove && sweep == nil {
+		})
+		return
+	}
+	for _, host := range hosts {
+		// candidates: the closures of the host, and the functions of the package it calls (a marker may be a method)
+		cands := append([]*ssa.Function{}, host.AnonFuncs...)
+		for _, c := range core.Calls(host) {
+			if h := core.Callee(c); h != nil && h.Pkg == gc.Pkg && h.Blocks != nil && h != tip && h.Parent() == nil && h != gc && removalHelper(h) < 0 {
+				isHost := false
+				for _, hh := range hosts {
+					if hh == h && len(h.AnonFuncs) > 0 {
+						isHost = true
+					}
+				}
+				if !isHost {
+					cands = append(cands, h)
+				}
+			}
+		}
+		for _, a := range cands {
+			hasUpdate, hasRemove := classify(a)
+			if hasUpdate && !hasRemove && mark == nil {
+				// a marker takes the path to mark as a string parameter
+				for _, prm := range a.Params {
+					if b, ok := prm.Type().Underlying().(*types.Basic); ok && b.Kind() == types.String {
+						mark, markHost = a, host
+					}
+				}
+			}
+			if hasRemove && sweep == nil && a.Parent() != nil {
 				sweep = a
 			}
 		}
@@ -429,6 +481,15 @@ func runC14(p *core.Prog, r *core.Result) {
 		return
 	}
 	sweepHost := sweep.Parent()
+	// the marker's path parameter (the first string parameter), and the argument index at its call sites
+	markPath := mark.Params[0]
+	markArg := 0
+	for i, prm := range mark.Params {
+		if b, ok := prm.Type().Underlying().(*types.Basic); ok && b.Kind() == types.String {
+			markPath, markArg = prm, i
+			break
+		}
+	}
 	// the set the sweep consults is the set the marker fills
 	mapRoot := func(v ssa.Value) ssa.Value {
 		for i := 0; i < 10 && v != nil; i++ {
@@ -454,6 +515,16 @@ func runC14(p *core.Prog, r *core.Result) {
 					return v
 				}
 				v = s
+			case *ssa.Parameter:
+				if x.Parent() != mark {
+					return v
+				}
+				cs := core.CallsTo(markHost, mark)
+				idx := paramIndex(mark, x)
+				if len(cs) == 0 || idx < 0 || idx >= len(cs[0].Common().Args) {
+					return v
+				}
+				v = cs[0].Common().Args[idx]
 			case *ssa.Call:
 				h := core.Callee(x)
 				if h == nil || h != markHost {
@@ -481,7 +552,7 @@ func runC14(p *core.Prog, r *core.Result) {
 	okMarkTip := false
 	var targetMark ssa.CallInstruction
 	for _, c := range markCalls {
-		if a, ok := c.Common().Args[0].(*ssa.Call); ok && core.Callee(a) == tip {
+		if a, ok := c.Common().Args[markArg].(*ssa.Call); ok && core.Callee(a) == tip {
 			// argument of targetInfoPath is the Label() of the ranged target
 			if lbl, ok := a.Call.Args[1].(*ssa.Call); ok && lbl.Call.IsInvoke() && lbl.Call.Method.Name() == "Label" {
 				okMarkTip = true
@@ -628,7 +699,7 @@ func runC14(p *core.Prog, r *core.Result) {
 	}
 	marked := map[string]bool{}
 	for _, c := range markCalls {
-		if a, ok := c.Common().Args[0].(*ssa.Call); ok {
+		if a, ok := c.Common().Args[markArg].(*ssa.Call); ok {
 			if b, parts := joinConsts(a); b == "work" {
 				marked[strings.Join(parts, "/")] = true
 			}
@@ -710,7 +781,7 @@ func runC14(p *core.Prog, r *core.Result) {
 				ph, ok := x.(*ssa.Phi)
 				return ok && inLoop(ph.Block())
 			})
-			fromParam := core.DependsOn(c.Call.Args[0], core.SliceOpts{ThroughCall: func(c2 *ssa.Call) bool { return core.IsCallTo(c2, "path/filepath", "Dir") }}, func(x ssa.Value) bool { return x == ssa.Value(mark.Params[0]) })
+			fromParam := core.DependsOn(c.Call.Args[0], core.SliceOpts{ThroughCall: func(c2 *ssa.Call) bool { return core.IsCallTo(c2, "path/filepath", "Dir") }}, func(x ssa.Value) bool { return x == ssa.Value(markPath) })
 			return fromPhi && fromParam
 		})
 		if iterated {
@@ -720,7 +791,7 @@ func runC14(p *core.Prog, r *core.Result) {
 	// the path itself is marked too (a key that is the parameter, not only its parents)
 	okSelf := false
 	core.Instrs(mark, func(in ssa.Instruction) {
-		if mu, ok := in.(*ssa.MapUpdate); ok && core.DependsOn(mu.Key, core.SliceOpts{}, func(x ssa.Value) bool { return x == ssa.Value(mark.Params[0]) }) {
+		if mu, ok := in.(*ssa.MapUpdate); ok && core.DependsOn(mu.Key, core.SliceOpts{}, func(x ssa.Value) bool { return x == ssa.Value(markPath) }) {
 			okSelf = true
 		}
 	})
@@ -800,17 +871,29 @@ func runC14(p *core.Prog, r *core.Result) {
 
 	// ---- R14.4
 	ms := mutatorSites(p, gc)
+	sweepFam := map[*ssa.Function]bool{sweep: true}
+	for _, c := range core.Calls(sweep) {
+		if h := core.Callee(c); removalHelper(h) >= 0 && onlyCalledFrom(p, h, map[*ssa.Function]bool{sweep: true}) {
+			sweepFam[h] = true
+		}
+	}
 	for _, m := range ms {
-		ok := m.Callee == "os.RemoveAll" && m.Fn == sweep
+		ok := m.Callee == "os.RemoveAll" && sweepFam[m.Fn]
 		r.Check(ok, "R14.4", "dawn.(*Project).GC#mutator:"+m.Callee+"@"+fname(m.Fn), p.InstrPos(m.Call.(ssa.Instruction)), "the only mutation performed by GC is RemoveAll in the sweep callback", "GC reaches "+m.Callee+" in "+fname(m.Fn)+": it changes more than the unmarked entries of the state directory")
 	}
 	r.Floor("R14.4", len(ms), 1, "file-system mutators reachable from GC")
 	// sweep: RemoveAll(path param) on the miss edge of the marked-set lookup; WalkDir root is Project.work
 	for _, c := range core.Calls(sweep) {
-		if !core.IsCallTo(c, "os", "RemoveAll") {
+		removed := ssa.Value(nil)
+		if core.IsCallTo(c, "os", "RemoveAll") {
+			removed = c.Common().Args[0]
+		} else if i := removalHelper(core.Callee(c)); i >= 0 && i < len(c.Common().Args) {
+			removed = c.Common().Args[i]
+		}
+		if removed == nil {
 			continue
 		}
-		argOK := c.Common().Args[0] == ssa.Value(sweep.Params[0])
+		argOK := removed == ssa.Value(sweep.Params[0])
 		miss := p.FactsAt(c.(ssa.Instruction)).Find(func(cv ssa.Value, v bool) bool {
 			e, ok := cv.(*ssa.Extract)
 			if !ok || e.Index != 1 || v {
@@ -825,7 +908,13 @@ func runC14(p *core.Prog, r *core.Result) {
 	for _, c := range core.Calls(sweepHost) {
 		if core.IsCallTo(c, "path/filepath", "WalkDir") || core.IsCallTo(c, "path/filepath", "Walk") {
 			if core.LoadOfField(c.Common().Args[0], pkgRoot, "Project", "work") {
-				if mc, ok := core.Unwrap(c.Common().Args[1]).(*ssa.MakeClosure); ok && mc.Fn == sweep {
+				cb := core.Unwrap(c.Common().Args[1])
+				if ld, ok := cb.(*ssa.UnOp); ok && ld.Op == token.MUL {
+					if sv := core.SingleStore(ld.X); sv != nil {
+						cb = core.Unwrap(sv)
+					}
+				}
+				if mc, ok := cb.(*ssa.MakeClosure); ok && mc.Fn == sweep {
 					okWalk = true
 				}
 			}
@@ -1284,7 +1373,6 @@ func checkLabelBounds(p *core.Prog, r *core.Result) {
 	r.Analysed["label_index_sites_proved"] = nProved
 }
 
-
 // checkCleanSeparators implements R12.8. In label.Clean the bytes of the result are produced by calls of the
 // lazybuf's append: the constant '/' is a separator, a byte read from the input is an element byte. Apart from the
 // two leading slashes of a rooted path (written before the loop), a separator must be followed by an element byte
@@ -1366,7 +1454,6 @@ func checkCleanSeparators(p *core.Prog, r *core.Result) {
 	r.Floor("R12.8", n, 1, "separators written inside Clean's loop")
 	r.Floor("R12.8", nElem, 1, "element bytes written by Clean")
 }
-
 
 // checkNewValidation implements R12.9: the delimiter characters of the printed form are tested for in every component
 // that label.New receives separately. (Parse needs fewer tests: its name is "everything after the last colon".)
